@@ -1,2 +1,11 @@
 #!/bin/sh
-exit 0
+# Build the framework from files on disk only (offline): Go harness, generated facts, Coq project.
+set -e
+cd "$(dirname "$0")"
+export GOFLAGS=-mod=mod GOPROXY=off GOSUMDB=off GOTOOLCHAIN=local
+mkdir -p .build/bin evidence replays
+cp /repo/go.sum harness/go.sum
+(cd harness && go build -tags verif -o ../.build/bin/ ./cmd/...)
+.build/bin/facts > coq/Generated/Facts.v.tmp && { cmp -s coq/Generated/Facts.v.tmp coq/Generated/Facts.v || cp coq/Generated/Facts.v.tmp coq/Generated/Facts.v; }; rm -f coq/Generated/Facts.v.tmp
+(cd coq && coq_makefile -f _CoqProject -o Makefile >/dev/null && timeout 3000 make -k -j16 >/dev/null 2>&1 || true)
+echo setup done
